@@ -47,6 +47,8 @@ type walkStats struct {
 	Names      int
 	Malformed  int // calls that returned a MalformedFileError
 	OtherErr   int // calls that returned another error
+	MaxOut     int64       // the longest decoded stream
+	Viol       []violation `json:",omitempty"`
 }
 
 func (st *walkStats) note(err error) {
@@ -148,7 +150,19 @@ func walk(d []byte, mode pdf.ReaderErrorHandling, st *walkStats) {
 				st.StreamErrs++
 				continue
 			}
-			_, err = io.Copy(io.Discard, io.LimitReader(rd, maxDrainBytes))
+			nOut, err := io.Copy(io.Discard, io.LimitReader(rd, maxDrainBytes))
+			if nOut > st.MaxOut {
+				st.MaxOut = nOut
+			}
+			// the decoded length of an image-dimension filter is bounded by the
+			// documented pixel limits, whatever the parameters claim
+			if fl, ferr := pdf.GetFilters(r, nil, o.Dict); ferr == nil {
+				if bound := outputBound(fl); bound > 0 && nOut > bound && len(st.Viol) < 3 {
+					st.Viol = append(st.Viol, violation{"decoded-output-over-documented-bound",
+						fmt.Sprintf("object %s: at least %d bytes drained from a %T stream in a file of %d bytes; documented bound %d (MaxImagePixels/8 + MaxImageHeight)",
+							ref, nOut, fl[len(fl)-1], len(d), bound)})
+				}
+			}
 			if err != nil {
 				st.note(err)
 				st.StreamErrs++
